@@ -18,9 +18,12 @@ Case = {"cfg": "graph"|"ds"|"cg"|"ro", "method": "GET"|"POST"|"POST_FORM", "fmt"
 Terms are small integers (vocabulary below); graph names 90…; 0 = the default graph / "no graph named";
 None in a pattern = wildcard; `remove` with g None = no context given (every graph).
 
-Observation per op: "<result> ; <endpoint quads> | <endpoint graph names> ; SENT <requests>" — the API result, what the
-BACKING dataset really contains afterwards, and every request text the endpoint received for the op DECODED by the
-Lean reader (lean/RV/C20/Text.lean); compared with the Lean model (state machine + predicted requests).
+Observation per op: "<result> ; <endpoint quads> | <endpoint graph names> ; SENT <requests> ; HTTP <requests> ; RES <answers>" —
+the API result, what the BACKING dataset really contains afterwards, every request text the endpoint received for the op
+DECODED by the Lean reader (lean/RV/C20/Text.lean), every request AS IT ARRIVED read by the endpoint itself (operation,
+carrier, path, Accept, parameters; model: lean/RV/C20/Conn.lean), and for reads every results document sent + the rows
+rdflib's parser makes of it (model: lean/RV/C20/Result.lean); compared with the Lean model (state machine + predicted
+requests, assembled and read back + predicted answers, written and parsed).
 Property oracle (independent of Lean), see `run_impl`: a local mirror driven by the same calls must equal
 the backing dataset at every commit boundary (autocommit: after every write), uncommitted writes are
 invisible until commit / the next non-dirty read, rollback discards exactly them, every read returns
@@ -65,8 +68,11 @@ ASSUMPTIONS = [
     "object of ANOTHER store as fourth element is by design copied into the dataset and is not driven",
 ]
 TRUSTED = ["harness/c20.py generators, canonicalisation and the mapping of Graph/Dataset/ConjunctiveGraph calls to "
-           "store-level contexts", "the reader of lean/RV/C20/Text.lean as the meaning of the SPARQL fragment the store emits", "harness/c20_endpoint.py (loop-back endpoint)", "lean/RV/C20/Drive.lean line protocol",
-           "HTTP transport itself (sockets, status codes, time-outs) is not modelled"]
+           "store-level contexts", "the reader of lean/RV/C20/Text.lean as the meaning of the SPARQL fragment the store emits", "the protocol reader `serverRead` of lean/RV/C20/Conn.lean and the W3C documents `wireJson`/`wireXml` of lean/RV/C20/Result.lean "
+           "as the specification of the transport / results layer",
+           "harness/c20_endpoint.py (loop-back endpoint)", "lean/RV/C20/Drive.lean line protocol",
+           "HTTP below urllib.request.urlopen (sockets, status codes, time-outs, header capitalisation, default form "
+           "Content-Type) and the text level of json.loads / expat are not modelled"]
 
 E = "http://e/"
 IRIS = {1: URIRef(E + "s1"), 2: URIRef(E + "s2"), 3: URIRef("http://e/é/ü"), 4: URIRef("urn:x:y"),
@@ -129,7 +135,9 @@ def _mime_tables():
             "/-- `rdflib.util.RESPONSE_TABLE_FORMAT_MIMETYPE_MAP` -/\n"
             f"def responseTableMimetypeMap : List (String × List String) := {tab(RESPONSE_TABLE_FORMAT_MIMETYPE_MAP)}\n\n"
             "/-- names of the registered `ResultParser` plugins -/\n"
-            f"def resultParserNames : List String := [{', '.join(q(n) for n in names)}]\n\n")
+            f"def resultParserNames : List String := [{', '.join(q(n) for n in names)}]\n\n"
+            "/-- `str(rdflib.graph.DATASET_DEFAULT_GRAPH_ID)` -/\n"
+            f"def datasetDefaultGraphId : List Char := ({q(str(DATASET_DEFAULT_GRAPH_ID))} : String).toList\n\n")
 
 
 def tkey(t):
@@ -574,7 +582,8 @@ def conn_line(case):
     qp, up = endpoint_paths(case)
     auth = _cps(AUTH_VALUE) if case.get("auth") else "-"
     up_ = "_" if case["cfg"] == "ro" else _cps(up)        # a read-only SPARQLStore has no update endpoint
-    return f"conn {case['method']} {_cps(qp)} {up_} {case['fmt']} {case.get('extra', 0)} {auth}"
+    return (f"conn {case['method']} {_cps(qp)} {up_} {case['fmt']} {case.get('extra', 0)} {auth} "
+            f"{int(case.get('ca', True))}")
 
 
 def op_commands(case, op):
@@ -582,7 +591,9 @@ def op_commands(case, op):
     of another store = a look-up of the dataset's graphs + add)"""
     cfg = case["cfg"]
     ca = case.get("ca", True)
-    C = lambda kind, g: ctx_of(cfg, kind, g, ca)  # noqa: E731
+    # the graph is passed as the call names it; a store that is not context aware is mapped to the endpoint's default
+    # graph by the MODEL (`_is_contextual` in lean/RV/C20/Conn.lean, configured by the `conn` line)
+    C = lambda kind, g: ctx_of(cfg, kind, g, True)  # noqa: E731
     k = op[0]
     if k == "add":
         add = f"add {op[1]} {op[2]} {op[3]} {_g(C('write', op[4]))}"
